@@ -855,6 +855,12 @@ impl Server {
             if let Some(path_id) = resource_table::get_path_id(path.to_path_buf()) {
                 Analyzer::drop_file(path_id, None);
             }
+            // A pending background analysis listed its paths before this
+            // request; it must not analyze the file again from disk while the
+            // client is about to delete or rename it.
+            for task in self.background_tasks.iter_mut() {
+                task.paths.retain(|x| x.src.as_path() != path.as_ref());
+            }
             // The path is gone: forget its buffer, so that a file appearing
             // under it later is analyzed from disk again, and never replay a
             // change of it after the next background analysis.
